@@ -84,7 +84,7 @@ func c01Witnesses() []c01Witness {
 			Doc: wDoc(J{"/a/{Type}/{range_}/{_func}": J{"get": wOp("getA", J{"parameters": []interface{}{
 				J{"name": "Type", "in": "path", "required": true, "schema": J{"type": "string"}}, J{"name": "range_", "in": "path", "required": true, "schema": J{"type": "string"}},
 				J{"name": "_func", "in": "path", "required": true, "schema": J{"type": "integer"}}}})}}, nil)},
-		{Name: "leading-digit-schema-with-nested-map", 
+		{Name: "leading-digit-schema-with-nested-map",
 			Doc: wDoc(J{}, J{"schemas": J{"1st": objWith(J{"count": J{"type": "object", "properties": J{"n": J{"type": "string"}}, "additionalProperties": J{"type": "integer"}}})}})},
 	}
 }
